@@ -48,11 +48,21 @@ def run_case(f, c):
             rel, red, rln = prel, pred, prln
         df = f(rel, red, rln, c['strategy'], alpha, beta)
         feats = list(df['Feature'])
-        out['features'] = [x if isinstance(x, str) else None for x in feats]
+        def plain(x):      # feature names are strings or (pandas' default column labels) integers
+            if isinstance(x, str):
+                return x
+            if isinstance(x, bool) or x is None:
+                return None
+            try:
+                return int(x) if int(x) == x else None
+            except (TypeError, ValueError):
+                return None
+        feats = [plain(x) for x in feats]
+        out['features'] = feats
         out['ranks'] = [int(x) for x in df['3MR_Ranking']]
         # the iteration orders of `all_features - set(ranked_features)` along the implementation's own ranking
         af = set(rel.keys())
-        if all(isinstance(x, str) for x in feats):
+        if all(x is not None for x in feats):
             out['orders'] = [list(af - set(feats[:k])) for k in range(1, len(feats))]
     except Exception as e:  # noqa: BLE001
         out['exc'] = type(e).__name__ + ':' + str(e)[:120]
